@@ -76,6 +76,17 @@ pub fn battery(cols: usize, rows: usize) -> Vec<String> {
         "$q",
         "h",
         "\x18x",
+        // the same completions followed by a visible character (is the parser back in ground?)
+        "\x07x",
+        "\x1b\\x",
+        "mx",
+        "Ax",
+        ";5Hx",
+        "0x",
+        "?25hx",
+        "$qx",
+        "hx",
+        "\x1b[1;1Hx",
         // soft reset keeps some state
         "\x1b[!px\x1b8x",
     ];
